@@ -31,8 +31,27 @@ def perms(names, maxlen):
     return [list(p) for n in range(maxlen + 1) for p in itertools.permutations(names, n)]
 ALLSELS = ["unset", "empty", "none", "NONE", "environment", "ENVIRONMENT", "name", "NAME", "NaMe", "unknown"]
 SEL_TEXT = {"empty": "", "none": "none", "NONE": "None", "environment": "environment", "ENVIRONMENT": "Environment",
-            "name": "myenv", "NAME": "MYENV", "NaMe": "MyEnv", "unknown": "nosuchenv"}
-DEF_NAME = {("named", "lower"): "myenv", ("named", "mixed"): "MyEnv", ("pkg", "lower"): "environment", ("pkg", "mixed"): "Environment"}
+            "unknown": "nosuchenv"}
+# names that are pieces / prefixes / extensions of the special names 'environment' and 'none'
+ODD_NAMES = ["env", "environ", "ment", "iron", "on", "nvi", "e", "non", "no", "one", "nonee", "environment2", "xnone"]
+
+
+def mixed(name):
+    return "".join(ch.upper() if i % 2 == 0 else ch for i, ch in enumerate(name))
+
+
+def sel_text(case):
+    """what the component writes into command.environment"""
+    sel, nm = case["sel"], case.get("name", "myenv")
+    if sel in ("name", "NAME", "NaMe"):
+        return {"name": nm, "NAME": nm.upper(), "NaMe": mixed(nm)}[sel]
+    return SEL_TEXT.get(sel, "<unset>")
+
+
+def def_name(case, n):
+    """how the package spells the name of environment n (named / pkg) where it defines it"""
+    base = case.get("name", "myenv") if n == "named" else "environment"
+    return base if case["spell"] == "lower" else mixed(base)
 
 
 def sset(xs):
@@ -44,10 +63,10 @@ def sset(xs):
 
 
 def family_cfg(name, plats=("default", "p1"), sels=("name",), spells=("lower",), interps=(False,), namedD=(), namedP=(), pkgD=(), pkgP=(),
-               creatable=("named@default", "named@p1", "pkg@default", "pkg@p1"), dlists=()):
+               creatable=("named@default", "named@p1", "pkg@default", "pkg@p1"), dlists=(), names=("myenv",), paths=("primitive", "replicated")):
     return {"name": name, "text": "CONSTANTS\n  Plats = %s\n  Sels = %s\n  Spells = %s\n  Interps = %s\n  NamedD = %s\n  NamedP = %s\n  PkgD = %s\n  PkgP = %s\n"
-            "  Creatable = %s\n  DLists <- MCDLists\n  Family = \"%s\"\n  Emit = TRUE\nSPECIFICATION Spec\nINVARIANT TypeOK\nINVARIANT CheckAndEmit\nCHECK_DEADLOCK FALSE\n" % (
-                sset(plats), sset(sels), sset(spells), sset(interps), sset(namedD), sset(namedP), sset(pkgD), sset(pkgP), sset(creatable), name),
+            "  Creatable = %s\n  Names = %s\n  Paths = %s\n  DLists <- MCDLists\n  Family = \"%s\"\n  Emit = TRUE\nSPECIFICATION Spec\nINVARIANT TypeOK\nINVARIANT CheckAndEmit\nCHECK_DEADLOCK FALSE\n" % (
+                sset(plats), sset(sels), sset(spells), sset(interps), sset(namedD), sset(namedP), sset(pkgD), sset(pkgP), sset(creatable), sset(names), sset(paths), name),
             # a cfg file cannot hold sequences: the DEFAULTS lists are a definition of a generated module that extends Env
             "module": "---- MODULE %s ----\nEXTENDS Env\nMCDLists == %s\n====\n" % ("%s", sset(dlists)),
             "has_defaults": bool(dlists)}
@@ -65,6 +84,10 @@ def families(tier):
                    # absent / empty as a whole / one key -- on p1 a key that is itself empty
                    namedD=["BASE", "PATH"] if th else ["BASE"], namedP=["EMQ", "CH"] if th else ["EMQ"], pkgD=["BASE"],
                    pkgP=["CH", "LD_LIBRARY_PATH"] if th else ["LD_LIBRARY_PATH"]),
+        # the NAME of the environment: pieces / prefixes / extensions of 'environment' and 'none', in every spelling, defined on either,
+        # both or no platform, with and without a package default environment
+        family_cfg("names", sels=("name", "NAME", "NaMe"), spells=("lower", "mixed"), names=ODD_NAMES if th else ODD_NAMES[:8],
+                   namedD=["BASE"], namedP=["BASE"], pkgD=["BASE"], creatable=("named@default", "named@p1", "pkg@default")),
         # one environment: every key subset x every DEFAULTS list (length 0..3, every order; imported names the environment
         # defines / does not define; the key referring to an imported name listed before / after it)
         family_cfg("defaults-orders", sels=("NaMe",), interps=(False, True), namedD=KEYS4, creatable=("named@default",), dlists=orders),
@@ -87,6 +110,15 @@ def families(tier):
         # both kinds of environment with keys at once: the other kind must never matter
         fams.append(family_cfg("cross", sels=("unset", "name", "none"), interps=(True,), namedD=["BASE", "PATH", "DEFAULTS"], namedP=["CH", "DEFAULTS"],
                                pkgD=["BASE", "DEFAULTS"], pkgP=["PATH", "CH"], dlists=[["BASE", "PATH"], ["IMP"]]))
+    # the replicated configuration (what tasks run with) is built for every family in the thorough tier; in the quick tier for
+    # the name family and for a family of its own with both kinds of environment layered over both platforms
+    fams.append(family_cfg("replicated", sels=("NaMe", "unset") + (("none",) if th else ()), interps=(False,), namedD=["BASE", "PATH", "DEFAULTS"],
+                           namedP=["PATH", "LD_LIBRARY_PATH", "DEFAULTS"], pkgD=["BASE"], pkgP=["PATH"] if th else [],
+                           creatable=("named@default", "named@p1", "pkg@default") + (("pkg@p1",) if th else ()), dlists=[["BASE", "PATH"], ["IMP"]]))
+    if not th:
+        for f in fams:
+            if f["name"] not in ("names", "replicated"):
+                f["text"] = f["text"].replace('Paths = {"primitive", "replicated"}', 'Paths = {"primitive"}')
     return fams
 
 
@@ -114,12 +146,12 @@ def build_package(case):
     envs = {"default": {}, "p1": {}, "p2": {}}
     for eid, content in as_dict(case["envs"]).items():
         n, p = eid.split("@")
-        envs[p][DEF_NAME[(n, case["spell"])]] = {k: render(v) for k, v in as_dict(content).items()}
+        envs[p][def_name(case, n)] = {k: render(v) for k, v in as_dict(content).items()}
     # decoys: platform p2 defines both environments, and another environment exists on every platform
     decoy = lambda tag: {"BASE": ":BASE.%s.1:" % tag, "CH": ":CH.%s.1:$BASE" % tag, "PATH": ":PATH.%s.1:$PATH" % tag, "DEFAULTS": "DECOY:HOME:PATH",
                          "EXTRA": ":EXTRA.%s.1:" % tag}
-    envs["p2"][DEF_NAME[("named", case["spell"])]] = decoy("named@p2")
-    envs["p2"][DEF_NAME[("pkg", case["spell"])]] = decoy("pkg@p2")
+    envs["p2"][def_name(case, "named")] = decoy("named@p2")
+    envs["p2"][def_name(case, "pkg")] = decoy("pkg@p2")
     for p in ("default", "p1", "p2"):
         envs[p]["otherenv"] = decoy("other@" + p)
     command = {"arguments": "x"}
@@ -128,7 +160,7 @@ def build_package(case):
     else:
         command["executable"] = "echo"
     if case["sel"] != "unset":
-        command["environment"] = SEL_TEXT[case["sel"]]
+        command["environment"] = sel_text(case)
     flowir = {"platforms": ["default", "p1", "p2"], "environments": envs,
               "components": [{"name": "c", "stage": 0, "command": command},
                              {"name": "d", "stage": 0, "command": {"executable": "echo", "arguments": "y", "environment": "otherenv"}}]}
@@ -152,7 +184,7 @@ def real_modules():
     return _ENV["FL"], _ENV["conf"], _ENV["E"], _ENV["graph"]
 
 
-def real_environment(flowir, plat, launch, sysv, validate):
+def real_environment(flowir, plat, launch, sysv, validate, primitive=True):
     """the real environment of stage0.c with os.environ replaced by the launch environment of the case"""
     FL, conf, E, graph = real_modules()
     saved = dict(os.environ)
@@ -161,8 +193,8 @@ def real_environment(flowir, plat, launch, sysv, validate):
         os.environ.update(launch)
         cf = conf.FlowIRExperimentConfiguration(
             path=None, platform=plat, variable_files=[], system_vars=dict(sysv), is_instance=False, createInstanceFiles=False,
-            primitive=True, concrete=FL.FlowIRConcrete(copy.deepcopy(flowir), plat, {}), updateInstanceFiles=False, validate=validate)
-        wg = graph.WorkflowGraph(configuration=cf, platform=plat, primitive=True)
+            primitive=primitive, concrete=FL.FlowIRConcrete(copy.deepcopy(flowir), plat, {}), updateInstanceFiles=False, validate=validate)
+        wg = graph.WorkflowGraph(configuration=cf, platform=plat, primitive=primitive)
         return wg.environmentForNode("stage0.c")
     finally:
         os.environ.clear()
@@ -174,24 +206,48 @@ def origin(text):
     return sorted(set(re.findall(r":[A-Z_0-9]+\.([a-z0-9@]+)\.\d+:", str(text))))
 
 
-def run_case(case):
+def run_case(case, only_path=None):
+    """both construction paths: from the package as loaded (primitive) and from the replicated configuration tasks run with"""
+    out = []
+    prim = None
+    for path in case.get("paths", ["primitive"]):
+        if only_path and path != only_path:
+            continue
+        res = run_case_path(case, path)
+        if path == "primitive":
+            prim = res
+        elif res and prim == []:
+            # the primitive path conforms, the replicated one does not: name the class of the input
+            both = {"named": ("named@default", "named@p1"), "default-pkg": ("pkg@default", "pkg@p1")}.get(case["class"])
+            if both and case["plat"] == "p1" and all(e in as_dict(case["envs"]) for e in both):
+                res = [("replicated:platform-environment-replaces-default-environment", what, rp) for key, what, rp in res]
+            else:
+                res = [("replicated:" + key, what, rp) for key, what, rp in res]
+        elif res:
+            res = [("replicated:" + key, what, rp) for key, what, rp in res]
+        out.extend(res)
+    return out
+
+
+def run_case_path(case, path):
     FL, conf, E, graph = real_modules()
     flowir, launch, sysv = build_package(case)
     exp = case["expected"]
     cls = case["class"]
-    rp = {"case": case}
-    where = "family %s platform %s selection %r (definition spelled %s) interpreter %s envs %s" % (
-        case["family"], case["plat"], SEL_TEXT.get(case["sel"], "<unset>"), case["spell"], case["interp"],
+    rp = {"case": case, "path": path}
+    primitive = path == "primitive"
+    where = "family %s (%s configuration) platform %s selection %r (definition spelled %s) interpreter %s envs %s" % (
+        case["family"], path, case["plat"], sel_text(case), case["spell"], case["interp"],
         {e: sorted(as_dict(c)) for e, c in as_dict(case["envs"]).items()})
     out = []
     loader_error = call_error = None
     env = None
     try:
-        env = real_environment(flowir, case["plat"], launch, sysv, True)
+        env = real_environment(flowir, case["plat"], launch, sysv, True, primitive)
     except E.ExperimentInvalidConfigurationError as e:
         loader_error = e
         try:
-            env = real_environment(flowir, case["plat"], launch, sysv, False)
+            env = real_environment(flowir, case["plat"], launch, sysv, False, primitive)
         except BaseException as e2:
             if isinstance(e2, (KeyboardInterrupt, SystemExit)):
                 raise
@@ -321,11 +377,12 @@ def run(tier):
                             "cleared_key_referenced": n_cleared, "environment_empty_as_a_whole": n_emptyenv}
     results = execute(cases)
     for case, res in zip(cases, results):
-        chk.evaluated((case["family"], case["plat"], case["sel"], case["spell"], case["interp"], json.dumps(case["envs"], sort_keys=True)))
+        chk.evaluated((case["family"], case.get("name"), case["plat"], case["sel"], case["spell"], case["interp"], json.dumps(case["envs"], sort_keys=True)),
+                      n=len(case.get("paths", [1])))
         for key, what, rp in res:
             chk.violation(key, what, rp)
     for c in cases[7:6000:1500]:
-        chk.sample({"family": c["family"], "platform": c["plat"], "selection": SEL_TEXT.get(c["sel"], "<unset>"), "interpreter": c["interp"],
+        chk.sample({"family": c["family"], "platform": c["plat"], "selection": sel_text(c), "interpreter": c["interp"],
                     "environments": {e: {k: render(v) for k, v in as_dict(x).items()} for e, x in as_dict(c["envs"]).items()},
                     "expected": {k: render(v) for k, v in as_dict(c["expected"]["env"]).items()} if c["expected"]["ok"] else "error"})
     hist = {}
@@ -356,6 +413,6 @@ def replay(path):
     chk = Check(PID, "quick")
     case = d["replay"]["case"]
     chk.evaluated(("replay", json.dumps(case["envs"], sort_keys=True)))
-    for key, what, rp in run_case(case):
+    for key, what, rp in run_case(case, d["replay"].get("path")):
         chk.violation(key, what, rp)
     return chk.finish()
